@@ -34,37 +34,42 @@ Proof. exact wf_model_eval_never_fails. Qed.
 Print Assumptions C03_wf_model_eval_never_fails.
 
 (* positional reading of the scoping judgment WFNodes (any scope: main graph, body, function body) *)
-Theorem C03_wf_def_before_use : forall NodeP Sub pre n post outer loc final,
-  WFNodes NodeP Sub outer loc (pre ++ n :: post) final ->
+Theorem C03_wf_def_before_use : forall NodeP Sub pre n post alld forb outer loc final,
+  WFNodes NodeP Sub alld forb outer loc (pre ++ n :: post) final ->
   forall i, In i (on_ins n) -> i <> "" -> In i loc \/ In i (defs pre) \/ In i outer.
 Proof. exact WFNodes_def_before_use. Qed.
 Print Assumptions C03_wf_def_before_use.
 
-Theorem C03_wf_single_assignment : forall NodeP Sub ns outer loc final,
-  WFNodes NodeP Sub outer loc ns final -> NoDup loc -> NoDup final.
+Theorem C03_wf_single_assignment : forall NodeP Sub ns alld forb outer loc final,
+  WFNodes NodeP Sub alld forb outer loc ns final -> NoDup loc -> NoDup final.
 Proof. exact WFNodes_ssa. Qed.
 Print Assumptions C03_wf_single_assignment.
 
-Theorem C03_wf_defined_names : forall NodeP Sub ns outer loc final,
-  WFNodes NodeP Sub outer loc ns final -> forall x, In x final <-> In x (defs ns) \/ In x loc.
+Theorem C03_wf_defined_names : forall NodeP Sub ns alld forb outer loc final,
+  WFNodes NodeP Sub alld forb outer loc ns final -> forall x, In x final <-> In x (defs ns) \/ In x loc.
 Proof. exact WFNodes_final. Qed.
 Print Assumptions C03_wf_defined_names.
 
-Theorem C03_wf_no_redefinition_of_visible_names : forall NodeP Sub ns outer loc final,
-  WFNodes NodeP Sub outer loc ns final -> forall x, In x (defs ns) -> ~ In x outer.
+(* a scope redefines neither a name visible from an enclosing scope (`outer`, the onnx.checker rule) nor any name
+   `forb` that the enclosing scopes define at ANY position, outputs of the owner nodes excepted (needed for
+   onnxruntime, whose own topological order may run a later independent node of the parent before the owner) *)
+Theorem C03_wf_no_redefinition_of_enclosing_names : forall NodeP Sub ns alld forb outer loc final,
+  WFNodes NodeP Sub alld forb outer loc ns final -> forall x, In x (defs ns) -> ~ In x outer /\ ~ In x forb.
 Proof. exact WFNodes_no_redefinition. Qed.
-Print Assumptions C03_wf_no_redefinition_of_visible_names.
+Print Assumptions C03_wf_no_redefinition_of_enclosing_names.
 
-Theorem C03_wf_bodies_see_exactly_the_owner_scope : forall NodeP Sub pre n post outer loc final,
-  WFNodes NodeP Sub outer loc (pre ++ n :: post) final ->
+Theorem C03_wf_bodies_see_exactly_the_owner_scope : forall NodeP Sub pre n post alld forb outer loc final,
+  WFNodes NodeP Sub alld forb outer loc (pre ++ n :: post) final ->
   forall gid, In gid (node_subgraph_ids n) ->
-    exists vis, Sub vis gid /\ forall x, In x vis <-> In x (defs pre) \/ In x loc \/ In x outer.
+    exists vis fb, Sub vis fb gid /\
+      (forall x, In x vis <-> In x (defs pre) \/ In x loc \/ In x outer) /\
+      (forall x, In x fb <-> (In x forb \/ In x alld) /\ ~ In x (on_outs n)).
 Proof. exact WFNodes_bodies. Qed.
 Print Assumptions C03_wf_bodies_see_exactly_the_owner_scope.
 
 (* every node of a WF scope satisfies the import / function-call rules NodeOK *)
-Theorem C03_wf_every_node_ok : forall NodeP Sub ns outer loc final,
-  WFNodes NodeP Sub outer loc ns final -> forall n, In n ns -> NodeP n.
+Theorem C03_wf_every_node_ok : forall NodeP Sub ns alld forb outer loc final,
+  WFNodes NodeP Sub alld forb outer loc ns final -> forall n, In n ns -> NodeP n.
 Proof. exact WFNodes_nodeP. Qed.
 Print Assumptions C03_wf_every_node_ok.
 
@@ -75,6 +80,12 @@ Theorem C03_validator_accepts_example :
   wf_model ex_model = true /\ table_ok ex_model = true /\ wf_first_bad ex_model = None.
 Proof. exact ex_model_wf. Qed.
 Print Assumptions C03_validator_accepts_example.
+
+Theorem C03_validator_position_independent_example :
+  wf_model (with_later "late") = false /\ wf_model (with_later "y") = true /\ wf_model (with_later "t") = true /\
+  wf_first_bad (with_later "late") = Some "redefines-enclosing-scope-name|late@Abs(a)".
+Proof. exact ex_position_independent. Qed.
+Print Assumptions C03_validator_position_independent_example.
 
 Theorem C03_validator_rejects_examples :
   wf_model (with_then [mkON "Abs" "" "a" ["x"] ["p"] []; mkON "Abs" "" "b" ["p"] ["t"] []]) = false /\
